@@ -350,6 +350,20 @@ class HamiltonianDisplacementMove(
     def __call__(self, context: HContextType) -> bool:
         return self.attempt_displacement(context)
 
+    def to_dict(self) -> dict[str, Any]:
+        """
+        Convert the `HamiltonianDisplacementMove` object to a dictionary.
+
+        Returns
+        -------
+        dict[str, Any]
+            A dictionary representation of the `HamiltonianDisplacementMove` object.
+        """
+        dictionary = super().to_dict()
+        dictionary["kwargs"].pop("apply_constraints")
+
+        return dictionary
+
     @property
     def default_operation(self) -> Integrator:
         """
